@@ -60,6 +60,8 @@ type Op struct {
 	Overwrite bool    `json:"overwrite"`
 	SrcIsDir  bool    `json:"srcIsDir"`
 	SrcBase   string  `json:"srcBase"`
+	SrcIn     string  `json:"srcIn"`   // "" or: the directory of the plugin root the source is / lies in
+	ViaLink   bool    `json:"viaLink"` // ... reached through a symbolic link
 	Entries   []Entry `json:"entries"`
 }
 
@@ -159,8 +161,55 @@ func writeFile(path string, cid int, exe, gox bool, s *Script) error {
 	return os.Chmod(path, mode(cid, exe, gox))
 }
 
+// inRoot: the source is a directory of the plugin root (or a file in it). Nothing is written:
+// the generator declares in op.Entries what that directory holds at this point (it only emits
+// such an operation right after the operation that produced the directory). If an earlier
+// operation misbehaved the directory differs; the call is made all the same and the
+// observations (which already differ from the model's at that earlier step) are reported.
+func inRoot(base, root string, op Op) (string, error) {
+	d := filepath.Join(root, op.SrcIn)
+	if op.ViaLink {
+		if err := os.MkdirAll(base, 0o755); err != nil {
+			return "", err
+		}
+		l := filepath.Join(base, "link")
+		if err := os.Symlink(d, l); err != nil {
+			return "", err
+		}
+		d = l
+	}
+	if op.SrcIsDir {
+		return d, nil
+	}
+	if len(op.Entries) != 1 {
+		return "", fmt.Errorf("in-root file source needs exactly one entry")
+	}
+	return filepath.Join(d, op.Entries[0].Name), nil
+}
+
 // materialise builds the source of an install operation under base and returns PluginPath.
-func materialise(base string, op Op) (string, error) {
+func materialise(base, root string, op Op) (string, error) {
+	if op.SrcIn != "" {
+		return inRoot(base, root, op)
+	}
+	if op.ViaLink {
+		// the real source lives in base/real; PluginPath is a link to the directory, resp. a file below a link
+		op.ViaLink = false
+		real := filepath.Join(base, "real")
+		p, err := materialise(real, root, op)
+		if err != nil || p == "" {
+			return p, err
+		}
+		if op.SrcIsDir {
+			l := filepath.Join(base, op.SrcBase)
+			return l, os.Symlink(p, l)
+		}
+		l := filepath.Join(base, "lnk")
+		if err := os.Symlink(real, l); err != nil {
+			return "", err
+		}
+		return filepath.Join(l, filepath.Base(p)), nil
+	}
 	if err := os.MkdirAll(base, 0o755); err != nil {
 		return "", err
 	}
@@ -291,7 +340,7 @@ func runSeq(work string, in Input) (Obs, error) {
 		st := StepObs{Err: "ok"}
 		switch op.Kind {
 		case "install":
-			path, err := materialise(filepath.Join(work, fmt.Sprintf("s%d", k)), op)
+			path, err := materialise(filepath.Join(work, fmt.Sprintf("s%d", k)), root, op)
 			if err != nil {
 				return obs, err
 			}
@@ -449,6 +498,15 @@ func (g *gen) simpleInstall(name, version string, overwrite, fromDir bool) Op {
 }
 
 func (g *gen) install() Op {
+	op := g.install0()
+	if g.chance(0.06) {
+		op.ViaLink = true
+		g.c.Count(fmt.Sprintf("shape.via-link.dir=%v", op.SrcIsDir))
+	}
+	return op
+}
+
+func (g *gen) install0() Op {
 	name := g.pick(pluginNames)
 	op := Op{Kind: "install", Overwrite: g.chance(0.3), Entries: []Entry{}}
 	g.c.Count(fmt.Sprintf("install.overwrite=%v", op.Overwrite))
@@ -611,6 +669,70 @@ func (g *gen) plant() Op {
 	return op
 }
 
+// fromRoot: install from the directory <root>/<dirName> (holding exactly the regular files es),
+// or from one file in it; directly or through a symbolic link
+func (g *gen) fromRoot(dirName string, es []Entry, isDir bool, file *Entry, ow, lnk bool) Op {
+	op := Op{Kind: "install", Overwrite: ow, SrcIsDir: isDir, SrcIn: dirName, ViaLink: lnk, Entries: []Entry{}}
+	if isDir {
+		op.SrcBase = dirName
+		if lnk {
+			op.SrcBase = "link"
+		}
+		op.Entries = append(op.Entries, es...)
+	} else {
+		op.SrcBase = file.Name
+		op.Entries = []Entry{*file}
+	}
+	g.c.Count(fmt.Sprintf("shape.in-root.dir=%v.link=%v", isDir, lnk))
+	return op
+}
+
+func regularFiles(es []Entry) []Entry {
+	out := []Entry{}
+	for _, e := range es {
+		if e.Kind == "file" {
+			out = append(out, e)
+		}
+	}
+	return out
+}
+
+// afterPlant: an installation whose source is the directory just planted (or a file in it).
+// Not generated when the walk would chmod the only, non-executable, candidate: that changes the
+// source, here a directory of the plugin root, which the model does not follow (see corpus notes).
+func (g *gen) afterPlant(pl Op) (Op, bool) {
+	if !validPluginName(pl.Name) {
+		return Op{}, false
+	}
+	es := regularFiles(pl.Entries)
+	var cands []int
+	nExec := 0
+	for i, e := range es {
+		if n, ok := strings.CutPrefix(e.Name, "notation-"); ok && n != "" {
+			cands = append(cands, i)
+			if e.Exec {
+				nExec++
+			}
+		}
+	}
+	isDir := g.chance(0.5)
+	if isDir && nExec == 0 && len(cands) == 1 {
+		isDir = false
+	}
+	if !isDir && len(es) == 0 {
+		return Op{}, false
+	}
+	var f *Entry
+	if !isDir {
+		i := g.c.Rand.Intn(len(es))
+		if len(cands) > 0 && g.chance(0.8) {
+			i = cands[g.c.Rand.Intn(len(cands))]
+		}
+		f = &es[i]
+	}
+	return g.fromRoot(pl.Name, es, isDir, f, g.chance(0.5), g.chance(0.3)), true
+}
+
 func (g *gen) rmexe() Op {
 	return Op{Kind: "rmexe", Name: g.pick(pluginNames), Entries: []Entry{}}
 }
@@ -630,7 +752,14 @@ func (g *gen) sequence() Input {
 		case g.chance(0.15):
 			in.Ops = append(in.Ops, g.uninstall())
 		case g.chance(0.12):
-			in.Ops = append(in.Ops, g.plant())
+			pl := g.plant()
+			in.Ops = append(in.Ops, pl)
+			if i+1 < n && g.chance(0.35) {
+				if op, ok := g.afterPlant(pl); ok {
+					in.Ops = append(in.Ops, op)
+					i++
+				}
+			}
 		case g.chance(0.05):
 			in.Ops = append(in.Ops, g.rmexe())
 		case g.chance(0.25):
@@ -685,6 +814,35 @@ func (g *gen) regressionShapes() []Input {
 	out = append(out, Input{Kind: "seq", Ops: []Op{
 		{Kind: "plant", Name: "foo", Entries: []Entry{g.fileEntry("libfoo-1.so", false, nil)}},
 		{Kind: "uninstall", Name: "foo", Entries: []Entry{}}}})
+	// the source is the installed plugin's own directory / executable (directly, through a link):
+	// refused without touching anything, with and without overwrite (3106bc6)
+	for _, ow := range []bool{false, true} {
+		for _, firstFromDir := range []bool{false, true} {
+			for _, isDir := range []bool{false, true} {
+				for _, lnk := range []bool{false, true} {
+					first := g.simpleInstall("foo", "1.0.0", false, firstFromDir)
+					es := regularFiles(first.Entries)
+					var exe *Entry
+					for i := range es {
+						if es[i].Name == "notation-foo" {
+							exe = &es[i]
+						}
+					}
+					out = append(out, Input{Kind: "seq", Ops: []Op{first, g.fromRoot("foo", es, isDir, exe, ow, lnk),
+						{Kind: "uninstall", Name: "foo", Entries: []Entry{}}}})
+				}
+			}
+		}
+		// from ANOTHER plugin's directory (a copy of foo 2.0.0 lying in <root>/bar): allowed, bar stays
+		for _, isDir := range []bool{false, true} {
+			pl := Op{Kind: "plant", Name: "bar", Entries: []Entry{g.fileEntry("notation-foo", true, s2()), g.fileEntry("LICENSE", false, nil)}}
+			out = append(out, Input{Kind: "seq", Ops: []Op{g.simpleInstall("foo", "1.0.0", false, false), pl,
+				g.fromRoot("bar", pl.Entries, isDir, &pl.Entries[0], ow, !isDir), {Kind: "uninstall", Name: "foo", Entries: []Entry{}}}})
+		}
+		// a hand-copied plugin reinstalled from its own directory
+		pl := Op{Kind: "plant", Name: "foo", Entries: []Entry{g.fileEntry("notation-foo", true, s2()), g.fileEntry("zlib.so", false, nil)}}
+		out = append(out, Input{Kind: "seq", Ops: []Op{pl, g.fromRoot("foo", pl.Entries, true, nil, ow, false)}})
+	}
 	// "executable" means the owner execute bit: notation-foo with mode 0654 / 0610 / 0601 / 0655
 	for k := 0; k < 4; k++ {
 		// as a single file: refused, the installed plugin stays (with and without overwrite)
